@@ -75,6 +75,9 @@ func c20R1(p *Prog, r *Report) {
 	pkg := p.Pkg("cred")
 	nRename := 0
 	p.AllFuncs(pkg, func(top *FuncCtx) {
+		// helpers expanded: the write / sync / close steps may live in a helper of the function
+		// that renames
+		top = p.Inlined(top)
 		var fcs []*FuncCtx
 		fcs = append(fcs, top)
 		for _, lit := range top.Lits() {
